@@ -76,6 +76,8 @@ def strategy(tier):
         mode=st.sampled_from(["live", "live", "sim"]),
         ops=st.lists(action(), min_size=1, max_size=n),
         sim_allowed=st.sampled_from(["0-3", "0", "0-2,5-6", "1,3", None, "0-1", "2-3"]),
+        # run the whole sequence inside `with p.oneshot():` (set, then get, in one block)
+        oneshot=st.booleans(),
     ))
 
 
@@ -140,8 +142,14 @@ def _run_live(case, state):
     labels = set()
     nontrivial = set()
     excluded = 0
-    if True:
-        p = psutil.Process(target.pid)
+    import contextlib
+
+    p = psutil.Process(target.pid)
+    block = p.oneshot() if case.get("oneshot") else contextlib.nullcontext()
+    with block:
+        if case.get("oneshot"):
+            p.name()   # primes the per-block caches
+            labels.add("inside-oneshot")
         by0 = snapshot(bystander.pid)
         me0 = snapshot(os.getpid())
         ncpu = os.cpu_count()
